@@ -186,6 +186,7 @@ func (vm *VM) loop() {
 VMLoop:
 	for vm.abort.Load() == 0 {
 		vm.ip++
+		verifTrace(vm)
 		switch vm.curInsts[vm.ip] {
 		case OpConstant:
 			cidx := int(vm.curInsts[vm.ip+2]) | int(vm.curInsts[vm.ip+1])<<8
